@@ -206,8 +206,32 @@ def run_case(case: dict[str, Any]) -> dict[str, Any]:
             ending = case.get("ending")
             if ending and ending[0] == "cancel":
                 sim.after(ending[1], lambda: sim.cancel(rec))
+            if ending and ending[0] == "double-cancel":
+                # second cancellation while the first one is still being handled (e.g. while the library closes the instance it created)
+                sim.run(max_time=sim.clock + ending[1])
+                sim.cancel(rec)
+                n0 = sum(z.close_calls for z in world.library_instances())
+                for _ in range(30):
+                    if rec.done or sum(z.close_calls for z in world.library_instances()) > n0:
+                        break
+                    sim.step()
+                if not rec.done and rec.task is not None:
+                    out["second_cancel_during_close"] = sum(z.close_calls for z in world.library_instances()) > n0
+                    rec.task.cancel()
             sim.run(until=lambda: rec.done, max_time=sim.clock + 400)
             sim.settle()
+            if ending and ending[0] in ("cancel", "double-cancel") and case["entry"] == "direct":
+                # the same manager is used again afterwards: the lookups now answer
+                for i, (form, md, os_) in enumerate(hosts):
+                    if form in NAMES and md == "hang":
+                        world.answers[f"dev{i}"] = mdns_answer("v4", i)
+                    if os_ == "hang":
+                        sim.net.dns[host_str(form, i)] = os_answer("v4", i)
+                out["cut_seq"] = sim.next_seq()
+                again = sim.call("resolve-again", lambda: hr.async_resolve_host(list(host_list), PORT, mgr))
+                sim.run(until=lambda: again.done, max_time=sim.clock + 100)
+                out["again"] = again
+                sim.settle()
             out["lib_after_call"] = [(z.idx, z.close_calls) for z in world.library_instances()]
             if mgr is not None:
                 fin = sim.call("manager.async_close", lambda: mgr.async_close())
@@ -280,6 +304,13 @@ def judge(case: dict[str, Any], o: dict[str, Any]) -> list[tuple[str, str]]:
                         break
                 if not o["tcp"]:
                     out.append(("C20/no-tcp-attempt", "addresses resolved but no TCP attempt was made"))
+    elif ending[0] in ("cancel", "double-cancel"):
+        again = o.get("again")
+        if again is not None:
+            if not again.done:
+                out.append(("C20/resolve-never-ended", "the resolve made after a cancelled one never ended"))
+            elif again.outcome != "ok" or not again.result:
+                out.append(("C20/resolve-after-cancel-failed", f"a resolve on the same manager after a cancelled one ended {again.outcome} {again.exc!r}"))
     elif ending[0] == "resolve-timeout":
         if not rec.done:
             out.append(("C20/resolve-never-ended", "a hanging lookup was not cut off by the resolve timeout within 400 s"))
@@ -298,7 +329,7 @@ def judge(case: dict[str, Any], o: dict[str, Any]) -> list[tuple[str, str]]:
     # dns_calls carry no seq; merge by virtual time with mDNS requests (ties cannot occur: an mDNS request takes > 0 s)
     merged = sorted([(r["seq"], "mdns", r["name"].partition(".")[0]) for r in o["requests"]]
                     + [(sq, "os", h) for sq, (_t, h, _p) in zip(o["dns_seqs"], dns_t)])
-    got_calls = [(k, n) for _, k, n in merged]
+    got_calls = [(k, n) for sq, k, n in merged if sq < o.get("cut_seq", 1 << 60)]
     exp_calls = ref["calls"]
     if ending:
         if got_calls != exp_calls[:len(got_calls)]:
@@ -329,6 +360,8 @@ def judge(case: dict[str, Any], o: dict[str, Any]) -> list[tuple[str, str]]:
         if after:
             out.append(("C20/instance-used-after-close", f"instance #{idx} ({origin}) used {after}x after it was closed"))
     for idx, closes in o["lib_after_call"]:
+        if "again" in o:
+            break   # (a later resolve legitimately creates and closes further instances; totals are judged above)
         if idx == o["pre"]:
             if closes:
                 out.append(("C20/shared-library-instance-closed-by-resolve", f"instance #{idx}, created earlier and still in use, was closed by the resolve"))
@@ -507,7 +540,7 @@ def shard(ctx: Ctx) -> None:
                 continue
             for prov in PROVISIONS:
                 for entry in ("direct", "client"):
-                    for ending in (("cancel", 0.01), ("cancel", 1.0), None):
+                    for ending in (("cancel", 0.01), ("cancel", 1.0), ("double-cancel", 0.01), ("double-cancel", 1.0), None):
                         for second in (("v4", "-", "-"), ("bare", "both", "-")):
                             idx += 1
                             if not ctx.mine(idx):
